@@ -33,6 +33,7 @@ func constUint(p *Prog, short, name string) (string, token.Pos, bool) {
 
 func runC10(c *Ctx) {
 	p := c.P
+	PackagesStateFree(c, "codec-state-free", "plumbing/format/idxfile", "plumbing/format/revfile")
 	const r1 = "offset64-marker-agreement"
 	want := "2147483648"
 	for _, m := range []struct{ pkg, name string }{{idxfShort, "isO64Mask"}, {idxfShort, "is64bitsMask"}, {"storage/filesystem/mmap", "is64bitsMask"}} {
@@ -231,7 +232,7 @@ func runC10(c *Ctx) {
 		}, nil)
 		_ = info
 	}
-	if lm := c.MustFunc(r3, "storage/filesystem/mmap.(*PackScanner).loadIdxFile"); lm != nil {
+	if lm :=c.MustFunc(r3, "storage/filesystem/mmap.(*PackScanner).loadIdxFile"); lm != nil {
 		info := lm.Pkg.TypesInfo
 		st := p.lookupType("storage/filesystem/mmap", "PackScanner")
 		off64, trailer := fieldOf(st, "off64Start"), fieldOf(st, "trailerStart")
